@@ -220,15 +220,23 @@ func (w *world) txBytes(kv map[string]string) ([]byte, *etypes.Transaction) {
 	return b, stx
 }
 
+// the blocks of one world form a chain: block h names the hash of block h-1, as on a real chain (the
+// application derives the EVM header's ParentHash - what BLOCKHASH walks - from it)
+var chainHashes = map[int64][]byte{}
+
 func mkBlock(h int64, txs [][]byte) *gtypes.Block {
 	b := &gtypes.Block{
 		Header:     &gtypes.Header{ChainID: "c05", Height: h, Time: time.Unix(1600000000+h, 0), ValidatorsHash: []byte("vals")},
 		Data:       &gtypes.Data{},
 		LastCommit: &gtypes.Commit{},
 	}
+	if ph, ok := chainHashes[h-1]; ok {
+		b.Header.LastBlockID = gtypes.BlockID{Hash: ph}
+	}
 	for _, tx := range txs {
 		b.Data.Txs = append(b.Data.Txs, gtypes.Tx(tx))
 	}
+	chainHashes[h] = append([]byte{}, b.Hash()...)
 	return b
 }
 
@@ -378,6 +386,7 @@ func main() {
 				return "ok"
 			case "new":
 				pending = nil
+				chainHashes = map[int64][]byte{}
 				if err := w.reset(); err != nil {
 					return "error " + err.Error()
 				}
@@ -503,6 +512,10 @@ func main() {
 	codes := map[string]string{
 		"store":   "600a600c600039600a6000f3" + "60003560005500", // deploys: SSTORE(0, calldata[0])
 		"logger":  "6005600c60003960056000f3" + "60006000a0",     // deploys: LOG0(0,0) on every call
+		// deploys: SSTORE(0..2, BLOCKHASH(NUMBER-2 / -1 / -3)), SSTORE(3, NUMBER), SSTORE(4, TIMESTAMP), SSTORE(5, COINBASE):
+		// whatever of the block context the EVM exposes must be a function of the chain (C05), also on a
+		// replica that was restarted since the blocks it looks back at
+		"env":     "6025600c60003960256000f3" + "6002430340600055" + "6001430340600155" + "6003430340600255" + "43600355" + "42600455" + "41600555" + "00",
 		"revert":  "60006000fd",
 		"invalid": "fe",
 		"empty":   "",
@@ -569,7 +582,7 @@ func main() {
 						bump = false // decided by the model, not by the generator: resynchronised after exec
 					}
 				case c < 36: // contract creation
-					nm := []string{"store", "logger", "logger", "revert", "invalid", "empty"}[R.Intn(6)]
+					nm := []string{"store", "logger", "logger", "revert", "invalid", "empty", "env", "env"}[R.Intn(8)]
 					op = fmt.Sprintf("tx kind=create from=%d nonce=%d value=0 gas=%d price=0 data=%s", from, nonce, []int{200000, 200000, 60000, 30000}[R.Intn(4)], codes[nm])
 					if bump {
 						created = append(created, fmt.Sprintf("c%d:%d", from, nonce))
